@@ -30,3 +30,11 @@ chk("C07", TV,
     "than the guard, every packet access stays inside the packet. All lengths 0..guard+64 and all byte values.",
     BASE_NOTE + " Replay oracle is the real struct module.",
     "SMT translation validation of emitted eBPF over a symbolic packet (z3 BV + arrays)", "A:8/C07")
+
+chk("C26", TV,
+    "The real Motor.program inside a real FastSyncGroup (bundled EL7041 layout, FMMU and direct addressing, plus a "
+    "shifted layout) is compiled and its bytes executed symbolically as ONE merged formula; the 16-bit velocity "
+    "command equals clamp(clamp(gain*(target-position), prev-A, prev+A), -L, L), zeroed towards an active switch, "
+    "for ALL values of all inputs (every frame and map byte symbolic), plus the three 'consequently' clauses, the "
+    "enable bit, memory safety of every access and register initialisation.",
+    BASE_NOTE, "SMT translation validation of the emitted control program, all inputs universally quantified (z3 BV)", "A:8/C26")
